@@ -108,6 +108,79 @@ def judge(ctx, res, label, corr_broken):
     return clean
 
 
+def second_instance_binary(ctx, corr_broken):
+    """The real apps/nsqd binary: a second process on a data path in use must exit non-zero (flock), and after a
+    SIGKILL of the first one a new process starts on the same path (the lock dies with the process)."""
+    import signal
+    import subprocess
+    import time
+    from framework import sh, env_with
+    binp = os.path.join(ctx.work, "nsqd_bin")
+    rc, out = sh(["go", "build", "-o", binp, "./apps/nsqd"], cwd=REPO, timeout=600)
+    if rc != 0:
+        ctx.log("apps/nsqd does not build:\n" + out[-800:])
+        corr_broken.append("apps/nsqd build")
+        return
+    d = os.path.join(ctx.work, "second_dp")
+    os.makedirs(d, exist_ok=True)
+    args = [binp, "--data-path", d, "--tcp-address=127.0.0.1:0", "--http-address=127.0.0.1:0"]
+    logs = [open(os.path.join(ctx.work, "nsqd%d.log" % i), "w+") for i in (1, 2, 3)]
+
+    def wait_dat(p):
+        for _ in range(500):
+            if os.path.exists(os.path.join(d, "nsqd.dat")) or p.poll() is not None:
+                break
+            time.sleep(0.01)
+        return p.poll() is None
+    p1 = subprocess.Popen(args, stdout=logs[0], stderr=subprocess.STDOUT, env=env_with())
+    res = {}
+    try:
+        if not wait_dat(p1):
+            corr_broken.append("apps/nsqd did not start on an empty data path")
+            return
+        p2 = subprocess.Popen(args, stdout=logs[1], stderr=subprocess.STDOUT, env=env_with())
+        try:
+            rc2 = p2.wait(timeout=10)
+        except subprocess.TimeoutExpired:
+            rc2 = None
+            p2.kill()
+        logs[1].seek(0)
+        out2 = logs[1].read()
+        res["second_exit"] = rc2
+        res["second_says"] = [l for l in out2.splitlines() if "lock" in l][:1]
+        ctx.count_case("apps/nsqd second instance on a live data path -> exit %s" % rc2)
+        if rc2 is None or rc2 == 0:
+            ctx.violation("second-instance", "a second apps/nsqd process on a data path in use did not refuse to start "
+                          "(exit %s)" % rc2, "args: %s\noutput:\n%s\n" % (args, out2[-1500:]))
+        # the first instance must be undisturbed: still running, file intact
+        res["first_still_running"] = p1.poll() is None
+        if p1.poll() is not None:
+            ctx.violation("second-instance", "the running nsqd died when a second one was started on its data path", "")
+        p1.send_signal(signal.SIGKILL)
+        p1.wait()
+        p3 = subprocess.Popen(args, stdout=logs[2], stderr=subprocess.STDOUT, env=env_with())
+        time.sleep(0.6)
+        res["restart_after_sigkill_running"] = p3.poll() is None
+        ctx.count_case("apps/nsqd restart after SIGKILL of the lock holder -> running=%s" % res["restart_after_sigkill_running"])
+        if p3.poll() is not None:
+            logs[2].seek(0)
+            ctx.violation("restart-failed", "apps/nsqd did not start after the previous instance was SIGKILLed",
+                          logs[2].read()[-1500:])
+        else:
+            p3.send_signal(signal.SIGTERM)
+            try:
+                res["graceful_exit"] = p3.wait(timeout=10)
+            except subprocess.TimeoutExpired:
+                p3.kill()
+    finally:
+        for p in (p1,):
+            if p.poll() is None:
+                p.kill()
+        for f in logs:
+            f.close()
+    ctx.corr["second_instance_binary"] = res
+
+
 def run(ctx):
     ctx.trusted += [
         "OS semantics (DESIGN §4.5): a completed write(2) is visible after SIGKILL, rename(2) is atomic w.r.t. "
@@ -169,6 +242,14 @@ def run(ctx):
         judge(ctx, res, "generated", corr_broken)
         for x in list(zip(res["ops"], res["impl"]))[1:7]:
             ctx.add_sample({"op": x[0], "impl": x[1]})
+        second_instance_binary(ctx, corr_broken)
+        # observation (never a violation): documents that are a per-topic cut but not a global cut, on the real code
+        rc, out = ctx.run_cmd([binp, "-test.run", "^TestVerifMetaCutObservation$", "-test.count=1", "-test.timeout=120s"],
+                              timeout=150, env={"VERIF_CUT_PAIRS": ctx.budget(300, 1500), "VERIF_CUT_MS": ctx.budget(1500, 8000)})
+        obs = [l for l in out.splitlines() if l.startswith("OBSERVATION")]
+        if obs:
+            ctx.corr["observation_global_cut"] = obs[0]
+            ctx.notes.append("observation (Props.C06.snapshot_cut is per topic; example cutSchedule): " + obs[0])
     if (ctx.broken_ties or corr_broken) and not ctx.violations:
         ctx.broken_without_input(ctx.broken_ties + corr_broken,
                                  "search: %d script lines executed on the real daemon; no oracle failed" % ctx.evaluations)
